@@ -5,6 +5,7 @@
 # Prints: CONFIRMED suite=pass demo_with=fail demo_without=pass   (or what went wrong); exit 0 iff confirmed.
 set -u
 DIR="$(cd "$1" && pwd)"
+ROOTV="$(cd "$(dirname "${BASH_SOURCE[0]}")/.." && pwd)"
 WT=/tmp/confirm-wt
 export CARGO_TARGET_DIR=/tmp/confirm-target CARGO_NET_OFFLINE=true RUST_BACKTRACE=0
 unset RUSTFLAGS
@@ -18,7 +19,39 @@ suite=fail
 if cargo nextest run --workspace --no-fail-fast --test-threads 8 --offline >/tmp/confirm-suite.log 2>&1; then suite=pass; fi
 rm -f tests/*.proptest-regressions
 demo_with=unknown; demo_without=unknown
-if [ -f "$DIR/demo.rs" ]; then
+PY=/root/.pyenv/versions/3.11.7/bin/python3.11
+build_py() { # builds the python extension of the current worktree state into /tmp/confirm-pyext
+  mkdir -p /tmp/confirm-pyext
+  PYO3_PYTHON=$PY cargo build --release --offline --lib --no-default-features --features "python pyo3/extension-module" --target-dir /tmp/confirm-target/py >/tmp/confirm-pybuild.log 2>&1 || return 1
+  cp -f /tmp/confirm-target/py/release/libgrex.so /tmp/confirm-pyext/grex.so
+}
+run_driver() { # native wasm-wrapper driver with the stand-in wasm-bindgen
+  rm -rf /tmp/confirm-driver; mkdir -p /tmp/confirm-driver/src
+  cat > /tmp/confirm-driver/Cargo.toml <<EOT
+[package]
+name = "driver"
+version = "0.1.0"
+edition = "2021"
+[dependencies]
+grex = { path = "$WT" }
+wasm-bindgen = "=0.2.97"
+[patch.crates-io]
+wasm-bindgen = { path = "$ROOTV/harness/stubs/wasm-bindgen" }
+wasm-bindgen-macro = { path = "$ROOTV/harness/stubs/wasm-bindgen-macro" }
+[workspace]
+EOT
+  cp "$WT/Cargo.lock" /tmp/confirm-driver/; cp "$DIR/demo_main.rs" /tmp/confirm-driver/src/main.rs
+  RUSTFLAGS="--cfg grex_verif" cargo run --offline --manifest-path /tmp/confirm-driver/Cargo.toml --target-dir /tmp/confirm-target/driver >"$1" 2>&1
+}
+if [ -f "$DIR/demo.py" ]; then
+  if build_py && $PY "$DIR/demo.py" /tmp/confirm-pyext >/tmp/confirm-demo-with.log 2>&1; then demo_with=pass; else demo_with=fail; fi
+  git checkout -q -- src
+  if build_py && $PY "$DIR/demo.py" /tmp/confirm-pyext >/tmp/confirm-demo-without.log 2>&1; then demo_without=pass; else demo_without=fail; fi
+elif [ -f "$DIR/demo_main.rs" ]; then
+  if run_driver /tmp/confirm-demo-with.log; then demo_with=pass; else demo_with=fail; fi
+  git checkout -q -- src
+  if run_driver /tmp/confirm-demo-without.log; then demo_without=pass; else demo_without=fail; fi
+elif [ -f "$DIR/demo.rs" ]; then
   cp "$DIR/demo.rs" tests/demo.rs
   if cargo test --test demo --offline >/tmp/confirm-demo-with.log 2>&1; then demo_with=pass; else demo_with=fail; fi
   git checkout -q -- src
